@@ -43,8 +43,10 @@ class ItemQueue(Generic[WorkItemT]):
     def put_item(self, item: WorkItemT):
         while self._queue.qsize() > 0:
             yield from self._worker_ready_condition.acquire()
-            yield from self._worker_ready_condition.wait()
-            self._worker_ready_condition.release()
+            try:
+                yield from self._worker_ready_condition.wait()
+            finally:
+                self._worker_ready_condition.release()
 
         self._unfinished_items += 1
         self._queue.put_nowait((ITEM_PRIORITY, self._entry_count, item))
@@ -80,8 +82,10 @@ class ItemQueue(Generic[WorkItemT]):
     @asyncio.coroutine
     def wait_for_worker(self):
         yield from self._worker_ready_condition.acquire()
-        yield from self._worker_ready_condition.wait()
-        self._worker_ready_condition.release()
+        try:
+            yield from self._worker_ready_condition.wait()
+        finally:
+            self._worker_ready_condition.release()
 
 
 class Worker(object):
@@ -231,7 +235,16 @@ class Pipeline(object):
 
         self._worker_tasks.clear()
 
-        yield from self._producer_task
+        if not self._producer_task.done():
+            # The workers are gone: nobody is left to wake a producer that
+            # waits for a worker or for room in the queue.
+            self._producer_task.cancel()
+
+        try:
+            yield from self._producer_task
+        except asyncio.CancelledError:
+            if not self._producer_task.cancelled():
+                raise
 
         self._state = PipelineState.stopped
 
